@@ -290,6 +290,14 @@ func isReservedField(n string) bool { return n == "z" || n == "lat" || n == "lon
 
 // setField applies one FIELD assignment; reports whether the list changed.
 func setField(fields map[string]string, name, val string) bool {
+	// a JSON string literal is the string it denotes (this is how a rewritten log spells
+	// string fields)
+	if len(val) >= 2 && val[0] == '"' && val[len(val)-1] == '"' {
+		var u string
+		if json.Unmarshal([]byte(val), &u) == nil {
+			val = u
+		}
+	}
 	prev, ok := fields[name]
 	if !ok {
 		prev = "0"
